@@ -1,7 +1,612 @@
-import Ccp.Model.Edit
+import Ccp.Proofs.Edit
+/-!
+# C06 — edits change exactly the targeted lines
+
+Property theorems only; helper lemmas and the specification vocabulary live in
+`Ccp.Proofs.Edit`:
+
+* `NoFilter s` := `s.auto = false ∨ s.cfg.ignoreBlank = false` — the commit that may follow
+  the edit does not filter blank lines.  This one hypothesis covers both cases of the text
+  effect: auto-commit off (the texts are what the list operation left), and auto-commit on
+  without `ignore_blank_lines` (`bootstrap` keeps the texts, `bootstrap_keeps_texts`).
+  With auto-commit on *and* `ignore_blank_lines` the texts after the step are one bootstrap
+  of the auto-commit-off result — the same lines minus, possibly, blank ones
+  (`auto_commit_step_texts`).
+* `insertPos n k` / `popPos n k` — Python's index normalisation for `list.insert` / `list.pop`;
+* `expandLine after x a m` := `if m then (if after then [a, x] else [x, a]) else [a]`;
+* `matchCount n row` := number of `true` among the first `n` row entries;
+* `idsOf items` := the committed line numbers carried by the list elements, in order;
+  `IdsDistinct items` := `(idsOf items).Nodup`; `IdsSub new old` := `(idsOf new).Sublist (idsOf old)`;
+* `Forest`, `ancestors` are the C03 vocabulary.
+
+All theorems are about `Ccp.Model.Edit.step`, for all states and payloads.  A state holds
+a list of items (text + identity: the committed line number of the object, `none` for a
+line created since the last commit); `s.texts` is the list of their texts.  An object
+handle `h` is a committed line number.  The operations that find their object by
+identity (object-level inserts, `replace_text`, `re_sub`) resolve it with `posOf` to its
+current position `p` and work on states with uncommitted changes as well
+(`handle_position`); `delete` and `append_to_family` index by the stored line number and
+are only modelled on states without uncommitted changes.  A handle that cannot be
+resolved is answered `dirtyHandle` — the harness skips such calls on both sides.  Regular
+expressions are oracle data: `row[i]` says whether the regex matched line `i`, `reSub`
+carries the substituted text.
+-/
 namespace Ccp.C06
 open Ccp.Tree Ccp.Edit Ccp.Py
 
-theorem placeholder_probe (s : S) : (step s .probe).1 = s := rfl
+/-! ## what "one line added / one line changed, all others unchanged and in order" means -/
+
+/-- A list of the form `take j ++ [x] ++ drop j` has exactly one more element, `x` sits at
+`j`, removing position `j` gives back the old list, the lines before `j` keep their
+position and the lines from `j` on move down by one. -/
+theorem insertion_frame (old : List Str) (j : Nat) (x : Str) (hj : j ≤ old.length) :
+    let new := old.take j ++ x :: old.drop j
+    new.length = old.length + 1 ∧ new[j]? = some x ∧ new.eraseIdx j = old ∧
+    (∀ m, m < j → new[m]? = old[m]?) ∧ (∀ m, j ≤ m → new[m + 1]? = old[m]?) :=
+  inserted_frame old j x hj
+
+/-- `List.set i x` changes position `i` only. -/
+theorem replacement_frame (old : List Str) (i : Nat) (x : Str) (hi : i < old.length) :
+    (old.set i x).length = old.length ∧ (old.set i x)[i]? = some x ∧
+    ∀ m, m ≠ i → (old.set i x)[m]? = old[m]? := set_frame old i x hi
+
+/-- Python's index normalisation of `list.insert(k, x)` on a list of length `n`. -/
+theorem insertPos_spec (n : Nat) (k : Int) :
+    insertPos n k ≤ n ∧
+    (0 ≤ k → k ≤ n → (insertPos n k : Int) = k) ∧ ((n : Int) < k → insertPos n k = n) ∧
+    (k < 0 → -(n : Int) ≤ k → (insertPos n k : Int) = n + k) ∧ (k < -(n : Int) → insertPos n k = 0) := by
+  unfold insertPos
+  refine ⟨?_, ?_, ?_, ?_, ?_⟩ <;> split <;> omega
+
+/-- Python's index normalisation of `list.pop(k)` for an index in range. -/
+theorem popPos_spec (n : Nat) (k : Int) :
+    (0 ≤ k → (popPos n k : Int) = k) ∧ (k < 0 → -(n : Int) ≤ k → (popPos n k : Int) = n + k) := by
+  unfold popPos
+  refine ⟨?_, ?_⟩ <;> split <;> omega
+
+/-! ## list-level insert / append / pop -/
+
+/-- **`ConfigList.insert(k, txt)`** always succeeds and is exactly `list.insert`: one line
+added at the normalised position, everything else unchanged and in order
+(`insertion_frame`). -/
+theorem insert_spec (s : S) (k : Int) (txt : Str) (hnf : NoFilter s) :
+    (step s (.insert k txt)).2 = .ok () ∧
+    (step s (.insert k txt)).1.texts
+      = s.texts.take (insertPos s.texts.length k) ++ txt :: s.texts.drop (insertPos s.texts.length k) := by
+  refine ⟨rfl, ?_⟩
+  simp only [Edit.step, edited_texts s hnf, pyInsert_map, fresh_text, ← pyInsert_eq]
+  rfl
+
+/-- **`ConfigList.append(txt)`** always succeeds and adds the line at the end. -/
+theorem append_spec (s : S) (txt : Str) (hnf : NoFilter s) :
+    (step s (.append txt)).2 = .ok () ∧ (step s (.append txt)).1.texts = s.texts ++ [txt] := by
+  refine ⟨rfl, ?_⟩
+  simp only [Edit.step, edited_texts s hnf, List.map_append, List.map_cons, List.map_nil, fresh_text]
+  rfl
+
+/-- **`ConfigList.pop(k)`**: in range (`-n ≤ k < n`) it removes exactly the line at the
+normalised position; out of range it is an `IndexError` and the state is unchanged. -/
+theorem pop_spec (s : S) (k : Int) (hnf : NoFilter s) :
+    (-(s.texts.length : Int) ≤ k ∧ k < s.texts.length →
+      (step s (.pop k)).2 = .ok () ∧
+      (step s (.pop k)).1.texts = s.texts.eraseIdx (popPos s.texts.length k) ∧
+      popPos s.texts.length k < s.texts.length) ∧
+    (k < -(s.texts.length : Int) ∨ (s.texts.length : Int) ≤ k →
+      step s (.pop k) = (s, .error .indexError)) := by
+  constructor
+  · intro h
+    obtain ⟨h1, h2⟩ := pyPop_in_range s.texts k h
+    rw [texts_length] at h
+    obtain ⟨h3, _⟩ := pyPop_in_range s.items k h
+    simp only [Edit.step, h3, edited_texts s hnf, map_eraseIdx', texts_length]
+    exact ⟨trivial, rfl, by rw [texts_length] at h2; exact h2⟩
+  · intro h
+    rw [texts_length] at h
+    simp only [Edit.step, pyPop_out_of_range s.items k h]
+
+/-! ## list-level insert_before / insert_after (regex) -/
+
+/-- the text effect shared by both directions: an explicit `List.flatMap` characterisation
+(line `a` at index `i` becomes `[x, a]` / `[a, x]` when `row[i]` is true and stays `[a]`
+otherwise — missing row entries count as no match), the length grows by the number of
+matching lines, the old lines survive unchanged and in order, everything that is not a
+copy of the payload is untouched, and the payload occurs exactly `matchCount` more often -/
+theorem insertAtMatches_spec (after : Bool) (x : Str) (l : List Str) (row : List Bool) :
+    insertAtMatches after x l row
+      = l.zipIdx.flatMap (fun p => expandLine after x p.1 (row.getD p.2 false)) ∧
+    (insertAtMatches after x l row).length = l.length + matchCount l.length row ∧
+    l.Sublist (insertAtMatches after x l row) ∧
+    (insertAtMatches after x l row).filter (· ≠ x) = l.filter (· ≠ x) ∧
+    (insertAtMatches after x l row).count x = l.count x + matchCount l.length row :=
+  ⟨insertAtMatches_eq_flatMap after x l row, insertAtMatches_length after x l row,
+   insertAtMatches_sublist after x l row, insertAtMatches_filter after x l row,
+   insertAtMatches_count after x l row⟩
+
+/-- **list-level `insert_before(regex, txt)`**: with a non-empty regex and a payload that
+is not a blank line under `ignore_blank_lines`, the new text list is the old one with
+exactly one copy of the payload directly before every matching line
+(`insertAtMatches_spec` with `after = false`). -/
+theorem listInsertBefore_spec (s : S) (row : List Bool) (txt : Str) (hnf : NoFilter s)
+    (hb : ¬ (isBlank txt = true ∧ s.cfg.ignoreBlank = true)) :
+    (step s (.listInsBefore false row txt)).2 = .ok () ∧
+    (step s (.listInsBefore false row txt)).1.texts = insertAtMatches false txt s.texts row := by
+  have hb' : (isBlank txt && s.cfg.ignoreBlank) = false := by
+    cases h1 : isBlank txt <;> cases h2 : s.cfg.ignoreBlank <;> simp_all
+  simp [Edit.step, hb', edited_texts s hnf, insertAtMatches_map, items_map_text]
+
+/-- **list-level `insert_after(regex, txt)`**: one copy directly after every matching line. -/
+theorem listInsertAfter_spec (s : S) (row : List Bool) (txt : Str) (hnf : NoFilter s)
+    (hb : ¬ (isBlank txt = true ∧ s.cfg.ignoreBlank = true)) :
+    (step s (.listInsAfter false row txt)).2 = .ok () ∧
+    (step s (.listInsAfter false row txt)).1.texts = insertAtMatches true txt s.texts row := by
+  have hb' : (isBlank txt && s.cfg.ignoreBlank) = false := by
+    cases h1 : isBlank txt <;> cases h2 : s.cfg.ignoreBlank <;> simp_all
+  simp [Edit.step, hb', edited_texts s hnf, insertAtMatches_map, items_map_text]
+
+/-- A regex that matches no line changes nothing. -/
+theorem listInsert_no_match (after : Bool) (x : Str) (l : List Str) (row : List Bool)
+    (h : matchCount l.length row = 0) : insertAtMatches after x l row = l := by
+  have h1 := insertAtMatches_sublist after x l row
+  have h2 := insertAtMatches_length after x l row
+  exact (h1.eq_of_length (by omega)).symm
+
+/-- The refusals of the list-level inserts: a blank payload under `ignore_blank_lines` is
+`InvalidParameters`, an empty regex is `ValueError`; the state is unchanged. -/
+theorem listInsert_errors (s : S) (e : Bool) (row : List Bool) (txt : Str) :
+    (isBlank txt = true ∧ s.cfg.ignoreBlank = true →
+      step s (.listInsBefore e row txt) = (s, .error .invalidParameters) ∧
+      step s (.listInsAfter e row txt) = (s, .error .invalidParameters)) ∧
+    (¬ (isBlank txt = true ∧ s.cfg.ignoreBlank = true) → e = true →
+      step s (.listInsBefore e row txt) = (s, .error .valueError) ∧
+      step s (.listInsAfter e row txt) = (s, .error .valueError)) := by
+  constructor
+  · rintro ⟨h1, h2⟩; simp [Edit.step, h1, h2]
+  · intro hb he
+    have hb' : (isBlank txt && s.cfg.ignoreBlank) = false := by
+      cases h1 : isBlank txt <;> cases h2 : s.cfg.ignoreBlank <;> simp_all
+    simp [Edit.step, hb', he]
+
+/-! ## object-level insert_before / insert_after -/
+
+/-- How an object handle `h` (the committed line number of the object) is resolved: `posOf`
+returns the first position of the current list that holds that object; on a state without
+uncommitted changes that satisfies C07's invariant it is the handle itself. -/
+theorem handle_position (s : S) (h : Nat) :
+    (∀ p, posOf s.items h = some p →
+      p < s.texts.length ∧ (s.items[p]?).map Item.id = some (some h) ∧
+      ∀ q, q < p → (s.items[q]?).map Item.id ≠ some (some h)) ∧
+    (s.dirty = false → FreshInv s → posOf s.items h = if h < s.texts.length then some h else none) := by
+  constructor
+  · intro p hp
+    have := posOf_some hp
+    rw [texts_length]; exact this
+  · intro hd hinv
+    have h3 := (hinv hd).2.2
+    have h4 := (hinv hd).2.1
+    rw [h3, posOf_committed, h4]
+
+/-- **Identities are tracked**: every operation either re-commits (the list then holds the
+objects `0..n-1` of the new tree) or leaves a sub-sequence of the committed objects the
+list held before — list operations move objects around and add fresh lines, they never
+duplicate or invent a committed object.  Hence "the committed ids in the list are
+pairwise distinct" (`IdsDistinct`) is preserved by every step. -/
+theorem ids_track_objects (s : S) (op : Op) :
+    ((∃ t, (step s op).1.items = committedItems t) ∨ IdsSub (step s op).1.items s.items) ∧
+    (IdsDistinct s.items → IdsDistinct (step s op).1.items) :=
+  ⟨step_ids s op, step_idsDistinct s op⟩
+
+/-- … it holds initially, hence in every reachable state, committed or not … -/
+theorem reachable_ids_distinct (cfg : Cfg) (auto : Bool) (width : Nat) (ls : List Str) (ops : List Op) :
+    IdsDistinct (run (init cfg auto width ls) ops).items :=
+  run_idsDistinct _ ops (idsDistinct_committed _)
+
+/-- … and then an object is at no more than one position: the position `posOf` returns is
+the only one holding the object `h`. -/
+theorem handle_unique (s : S) (hd : IdsDistinct s.items) (h p q : Nat)
+    (hp : (s.items[p]?).map Item.id = some (some h)) (hq : (s.items[q]?).map Item.id = some (some h)) :
+    p = q := idsDistinct_unique hd hp hq
+
+/-- **`obj.insert_before(txt)`** on the object `h`, currently at position `p` (also on a
+state with uncommitted changes — the code finds the object by identity): exactly one
+line is added, at position `p`, directly before the object's line (which moves to
+`p + 1`); everything else is unchanged and in order. -/
+theorem objInsertBefore_spec (s : S) (h p : Nat) (txt : Str) (hnf : NoFilter s)
+    (hp : posOf s.items h = some p)
+    (hb : ¬ (isBlank txt = true ∧ s.cfg.ignoreBlank = true)) :
+    let new := (step s (.objInsBefore h txt)).1.texts
+    (step s (.objInsBefore h txt)).2 = .ok () ∧
+    new = s.texts.take p ++ txt :: s.texts.drop p ∧
+    new.length = s.texts.length + 1 ∧ new[p]? = some txt ∧ new[p + 1]? = s.texts[p]? ∧
+    new.eraseIdx p = s.texts := by
+  have hb' : (isBlank txt && s.cfg.ignoreBlank) = false := by
+    cases h1 : isBlank txt <;> cases h2 : s.cfg.ignoreBlank <;> simp_all
+  have hpl : p < s.texts.length := ((handle_position s h).1 p hp).1
+  have ht : (step s (.objInsBefore h txt)).1.texts = s.texts.take p ++ txt :: s.texts.drop p := by
+    have : (step s (.objInsBefore h txt)).1
+        = autoCommit { s with items := s.items.take p ++ fresh txt :: s.items.drop p, dirty := true } := by
+      simp [Edit.step, hp, hb']
+    rw [this, edited_texts s hnf]; simp [S.texts]
+  have hr : (step s (.objInsBefore h txt)).2 = .ok () := by simp [Edit.step, hp, hb']
+  intro new
+  have hf := inserted_frame s.texts p txt (by omega)
+  simp only [new, ht]
+  exact ⟨hr, trivial, hf.1, hf.2.1, hf.2.2.2.2 p (Nat.le_refl _), hf.2.2.1⟩
+
+/-- **`obj.insert_after(txt)`**: exactly one line is added, at position `p + 1`, directly
+after the object's line (which stays at `p`); everything else is unchanged and in order. -/
+theorem objInsertAfter_spec (s : S) (h p : Nat) (txt : Str) (hnf : NoFilter s)
+    (hp : posOf s.items h = some p)
+    (hb : ¬ (isBlank txt = true ∧ s.cfg.ignoreBlank = true)) :
+    let new := (step s (.objInsAfter h txt)).1.texts
+    (step s (.objInsAfter h txt)).2 = .ok () ∧
+    new = s.texts.take (p + 1) ++ txt :: s.texts.drop (p + 1) ∧
+    new.length = s.texts.length + 1 ∧ new[p]? = s.texts[p]? ∧ new[p + 1]? = some txt ∧
+    new.eraseIdx (p + 1) = s.texts := by
+  have hb' : (isBlank txt && s.cfg.ignoreBlank) = false := by
+    cases h1 : isBlank txt <;> cases h2 : s.cfg.ignoreBlank <;> simp_all
+  have hpl : p < s.texts.length := ((handle_position s h).1 p hp).1
+  have ht : (step s (.objInsAfter h txt)).1.texts
+      = s.texts.take (p + 1) ++ txt :: s.texts.drop (p + 1) := by
+    have : (step s (.objInsAfter h txt)).1
+        = autoCommit { s with items := s.items.take (p + 1) ++ fresh txt :: s.items.drop (p + 1), dirty := true } := by
+      simp [Edit.step, hp, hb']
+    rw [this, edited_texts s hnf]; simp [S.texts]
+  have hr : (step s (.objInsAfter h txt)).2 = .ok () := by simp [Edit.step, hp, hb']
+  intro new
+  have hf := inserted_frame s.texts (p + 1) txt (by omega)
+  simp only [new, ht]
+  exact ⟨hr, trivial, hf.1, hf.2.2.2.1 p (by omega), hf.2.1, hf.2.2.1⟩
+
+/-- On a state without uncommitted changes satisfying C07's invariant (every reachable
+such state) a handle below the length is its own position … -/
+theorem committed_handle (s : S) (h : Nat) (hd : s.dirty = false) (hinv : FreshInv s)
+    (hh : h < s.texts.length) : posOf s.items h = some h := by
+  rw [(handle_position s h).2 hd hinv, if_pos hh]
+
+/-- … so there the object-level inserts add exactly one line at `h` / `h + 1`, adjacent to
+line `h`. -/
+theorem objInsert_committed (s : S) (h : Nat) (txt : Str) (hnf : NoFilter s)
+    (hd : s.dirty = false) (hinv : FreshInv s) (hh : h < s.texts.length)
+    (hb : ¬ (isBlank txt = true ∧ s.cfg.ignoreBlank = true)) :
+    (step s (.objInsBefore h txt)).1.texts = s.texts.take h ++ txt :: s.texts.drop h ∧
+    (step s (.objInsAfter h txt)).1.texts = s.texts.take (h + 1) ++ txt :: s.texts.drop (h + 1) :=
+  ⟨(objInsertBefore_spec s h h txt hnf (committed_handle s h hd hinv hh) hb).2.1,
+   (objInsertAfter_spec s h h txt hnf (committed_handle s h hd hinv hh) hb).2.1⟩
+
+/-- A blank payload under `ignore_blank_lines` is refused with `InvalidParameters`. -/
+theorem objInsert_blank_refused (s : S) (h p : Nat) (txt : Str)
+    (hp : posOf s.items h = some p)
+    (hb : isBlank txt = true ∧ s.cfg.ignoreBlank = true) :
+    step s (.objInsBefore h txt) = (s, .error .invalidParameters) ∧
+    step s (.objInsAfter h txt) = (s, .error .invalidParameters) := by
+  simp [Edit.step, hp, hb.1, hb.2]
+
+/-! ## delete -/
+
+/-- **`obj.delete()`** on line `i` of a committed state removes exactly the positions
+`{i} ∪ all_children(i)` of the text list and nothing else: the remaining lines keep text
+and order (`eraseAll` = keep the positions not listed). -/
+theorem delete_spec (s : S) (i : Nat) (hnf : NoFilter s) (hd : s.dirty = false) (hi : i < s.texts.length) :
+    (step s (.delete i)).2 = .ok () ∧
+    (step s (.delete i)).1.texts
+      = (s.texts.zipIdx.filter (fun p => !(i :: allChildren s.tree i).contains p.2)).map (·.1) ∧
+    ((step s (.delete i)).1.texts).Sublist s.texts := by
+  have hg : ¬ (s.dirty = true ∨ s.items.length ≤ i) := by rw [hd, ← texts_length]; simp; omega
+  have ht : (step s (.delete i)).1.texts = eraseAll s.texts (descendantsAndSelf s.tree i) := by
+    simp [Edit.step, hg, edited_texts s hnf, eraseAll_map, items_map_text]
+  refine ⟨by simp [Edit.step, hg], ?_, ?_⟩
+  · rw [ht, eraseAll_eq_filter]; rfl
+  · rw [ht]; exact eraseAll_sublist _ _
+
+/-- … and when the committed tree is a forest whose size is the number of lines (true in
+every reachable committed state, `reachable_tree_ok`), the removed set is the line and
+its descendants in the sense of C03 (`i` on the ancestor chain), and the list gets
+shorter by exactly `1 + |all_children(i)|`. -/
+theorem delete_spec_forest (s : S) (i : Nat) (hnf : NoFilter s) (hd : s.dirty = false)
+    (hi : i < s.texts.length) (hf : Forest s.tree) (hsz : s.tree.size = s.texts.length) :
+    (step s (.delete i)).1.texts
+      = (s.texts.zipIdx.filter (fun p => decide (p.2 ≠ i ∧ i ∉ ancestors s.tree p.2))).map (·.1) ∧
+    (step s (.delete i)).1.texts.length + 1 + (allChildren s.tree i).length = s.texts.length := by
+  have hg : ¬ (s.dirty = true ∨ s.items.length ≤ i) := by rw [hd, ← texts_length]; simp; omega
+  have ht : (step s (.delete i)).1.texts = eraseAll s.texts (descendantsAndSelf s.tree i) := by
+    simp [Edit.step, hg, edited_texts s hnf, eraseAll_map, items_map_text]
+  rw [ht]
+  exact ⟨delete_filter_forest hf s.texts i, delete_length_forest hf s.texts i hsz hi⟩
+
+/-! ## replace_text / re_sub -/
+
+/-- **`obj.replace_text(before, after)`** on the object `h`, currently at position `p` (also
+on a state with uncommitted changes): position `p` only changes, to `str.replace` of its
+text (`replacement_frame`). -/
+theorem replaceText_spec (s : S) (h p : Nat) (before after : Str) (hnf : NoFilter s)
+    (hp : posOf s.items h = some p) :
+    (step s (.replaceText h before after)).2 = .ok () ∧
+    (step s (.replaceText h before after)).1.texts
+      = s.texts.set p (pyReplace before after (s.texts.getD p [])) := by
+  have : step s (.replaceText h before after)
+      = (autoCommit { s with items := setText s.items p (pyReplace before after (s.texts.getD p [])),
+                             dirty := true }, .ok ()) := by
+    simp only [Edit.step, hp]
+  rw [this]
+  refine ⟨rfl, ?_⟩
+  show (autoCommit _).texts = _
+  rw [edited_texts s hnf, setText_texts]; rfl
+
+/-- **`obj.re_sub(regex, repl)`** (with `newText = re.sub(regex, repl, text)` computed by the
+caller) on the object `h` at position `p` of a non-stale state: position `p` only
+changes, to the substituted text; a substitution that leaves the text as it is changes
+nothing at all (not even a commit); on a stale state it refuses with
+`NotImplementedError`. -/
+theorem reSub_spec (s : S) (h p : Nat) (newText : Str) (hnf : NoFilter s)
+    (hp : posOf s.items h = some p) :
+    (s.stale = false → newText ≠ s.texts.getD p [] →
+      (step s (.reSub h newText)).2 = .ok () ∧
+      (step s (.reSub h newText)).1.texts = s.texts.set p newText) ∧
+    (s.stale = false → newText = s.texts.getD p [] → step s (.reSub h newText) = (s, .ok ())) ∧
+    (s.stale = true → step s (.reSub h newText) = (s, .error .notImplemented)) := by
+  refine ⟨fun hs hne => ?_, fun hs he => ?_, fun hs => ?_⟩
+  · have : step s (.reSub h newText)
+        = (autoCommit { s with items := setText s.items p newText, dirty := true }, .ok ()) := by
+      simp only [Edit.step, hp, hs, Bool.false_eq_true, if_false, if_neg hne]
+    rw [this]
+    refine ⟨rfl, ?_⟩
+    show (autoCommit _).texts = _
+    rw [edited_texts s hnf, setText_texts]; rfl
+  · simp only [Edit.step, hp, hs, Bool.false_eq_true, if_false, if_pos he]
+  · simp only [Edit.step, hp, hs, if_true]
+
+/-- On a committed state (`committed_handle`) `replace_text` / `re_sub` change line `h` itself. -/
+theorem replaceText_committed (s : S) (h : Nat) (before after : Str) (hnf : NoFilter s)
+    (hd : s.dirty = false) (hinv : FreshInv s) (hh : h < s.texts.length) :
+    (step s (.replaceText h before after)).1.texts
+      = s.texts.set h (pyReplace before after (s.texts.getD h [])) :=
+  (replaceText_spec s h h before after hnf (committed_handle s h hd hinv hh)).2
+
+/-! ## append_to_family -/
+
+/-- **`obj.append_to_family(txt, indent, auto_indent)`**: whenever it succeeds, the state was
+committed, the handle valid, and exactly one line — the payload after the explicit / auto
+indentation of `familyText` — is inserted, at the index `appendIndex` computes (clipped to
+the list length like `list.insert`); all other lines keep text and order
+(`insertion_frame`).  The new line is at the target's indent level or exactly one level
+deeper. -/
+theorem appendToFamily_spec (s : S) (i : Nat) (txt : Str) (ind : Int) (ai : Bool) (hnf : NoFilter s)
+    (hok : (step s (.appendToFamily i txt ind ai)).2 = .ok ()) :
+    let txt' := familyText (indentOf s.tree i) s.width txt ind ai
+    s.dirty = false ∧ i < s.texts.length ∧ ¬ (ai = true ∧ ind > 0) ∧
+    ∃ idx, appendIndex s.tree s.width i txt' = .ok idx ∧
+      (step s (.appendToFamily i txt ind ai)).1.texts
+        = s.texts.take (min idx s.texts.length) ++ txt' :: s.texts.drop (min idx s.texts.length) ∧
+      (cfi s.width (indentOf s.tree i) txt' = some 0 ∨ cfi s.width (indentOf s.tree i) txt' = some 1) := by
+  intro txt'
+  obtain ⟨h1, h2, h3, idx, h4, h5⟩ := step_appendToFamily_ok s i txt ind ai hok
+  refine ⟨h1, by rw [texts_length]; exact h2, h3, idx, h4, ?_, appendIndex_level _ _ _ _ idx h4⟩
+  rw [h5, edited_texts s hnf, pyInsert_map, items_map_text, pyInsert_eq, insertPos_natCast]
+  rfl
+
+/-- **Child-level append to a target that has children** (the new line is not at the
+target's own indent): the line is one level deeper than the target and is inserted at
+`familyEndpoint + 1`.  In a forest whose size is the number of lines (every reachable
+committed state) that is a valid position, namely directly after the last line among the
+target and its descendants. -/
+theorem appendToFamily_child_level (s : S) (i : Nat) (txt : Str) (ind : Int) (ai : Bool) (hnf : NoFilter s)
+    (hok : (step s (.appendToFamily i txt ind ai)).2 = .ok ())
+    (hk : children s.tree i ≠ [])
+    (h0 : cfi s.width (indentOf s.tree i) (familyText (indentOf s.tree i) s.width txt ind ai) ≠ some 0)
+    (hf : Forest s.tree) (hsz : s.tree.size = s.texts.length) :
+    let txt' := familyText (indentOf s.tree i) s.width txt ind ai
+    let e := familyEndpoint s.tree i
+    (step s (.appendToFamily i txt ind ai)).1.texts = s.texts.take (e + 1) ++ txt' :: s.texts.drop (e + 1) ∧
+    e + 1 ≤ s.texts.length ∧ e ∈ i :: allChildren s.tree i ∧ (∀ j ∈ i :: allChildren s.tree i, j ≤ e) ∧
+    cfi s.width (indentOf s.tree i) txt' = some 1 := by
+  intro txt' e
+  obtain ⟨_, h2, _, idx, h4, h5, _⟩ := appendToFamily_spec s i txt ind ai hnf hok
+  obtain ⟨h6, h7⟩ := appendIndex_child_level _ _ _ _ idx hk h4 h0
+  have h8 : e < s.tree.size := familyEndpoint_lt_size hf (by omega)
+  have h9 := familyEndpoint_max hf i
+  refine ⟨?_, by omega, h9.1, h9.2, h7⟩
+  rw [h5, h6, Nat.min_eq_left (by omega)]
+
+/-- **Same-indent append to a target that has children — known finding F10b.**  Intended
+(and what the property asks for): the line goes after the whole family, i.e. at
+`familyEndpoint + 1`.  What the code does, and what is proved here: it is inserted at
+`i + |children(i)|`, which lies inside the family as soon as the target has a grandchild
+(see the example below). -/
+theorem appendToFamily_same_indent_partial (s : S) (i : Nat) (txt : Str) (ind : Int) (ai : Bool)
+    (hnf : NoFilter s) (hok : (step s (.appendToFamily i txt ind ai)).2 = .ok ())
+    (hk : children s.tree i ≠ [])
+    (h0 : cfi s.width (indentOf s.tree i) (familyText (indentOf s.tree i) s.width txt ind ai) = some 0) :
+    let txt' := familyText (indentOf s.tree i) s.width txt ind ai
+    let j := min (i + (children s.tree i).length) s.texts.length
+    (step s (.appendToFamily i txt ind ai)).1.texts = s.texts.take j ++ txt' :: s.texts.drop j := by
+  intro txt' j
+  obtain ⟨_, _, _, idx, h4, h5, _⟩ := appendToFamily_spec s i txt ind ai hnf hok
+  rw [h5, appendIndex_same_indent _ _ _ _ idx hk h4 h0]
+
+/-- **Append to a childless target**, as the code does it: a line at the target's indent
+goes after the target's last sibling (or, without siblings, after the last line of that
+level found by `last_family_linenum`); a line one level deeper goes after
+`last_parent_linenums[0]`. -/
+theorem appendToFamily_childless (s : S) (i : Nat) (txt : Str) (ind : Int) (ai : Bool)
+    (hok : (step s (.appendToFamily i txt ind ai)).2 = .ok ()) (hk : children s.tree i = []) :
+    let txt' := familyText (indentOf s.tree i) s.width txt ind ai
+    ∃ idx, appendIndex s.tree s.width i txt' = .ok idx ∧
+    ((cfi s.width (indentOf s.tree i) txt' = some 0 ∧
+      ((siblings s.tree i ≠ [] ∧ idx = ((siblings s.tree i).getLast?).getD i + 1) ∨
+       (siblings s.tree i = [] ∧ ∃ l, lastFamilyLinenum s.tree s.width i = some l ∧ idx = l + 1))) ∨
+     (cfi s.width (indentOf s.tree i) txt' = some 1 ∧
+      ∃ lp, lastParentLinenum0 s.tree s.width i = some lp ∧ idx = lp + 1)) := by
+  intro txt'
+  obtain ⟨_, _, _, idx, h4, _⟩ := step_appendToFamily_ok s i txt ind ai hok
+  exact ⟨idx, h4, appendIndex_childless _ _ _ _ idx hk h4⟩
+
+/-! ## errors and frame -/
+
+/-- **Every refused operation leaves the whole state unchanged** (texts, tree, flags). -/
+theorem errors_leave_state (s : S) (op : Op) (e : Err) (h : (step s op).2 = .error e) :
+    (step s op).1 = s := step_error_unchanged s op e h
+
+/-- A handle whose object is no longer in the list (deleted or popped since the last
+commit), and — for `delete` / `append_to_family`, which index by the object's stored line
+number — any handle on a state with uncommitted changes, is not executed (the model's
+`dirtyHandle`; the harness skips the call on both sides). -/
+theorem unresolved_handle_skipped (s : S) (h : Nat) (txt before after : Str) (ind : Int) (ai : Bool) :
+    (posOf s.items h = none →
+      step s (.objInsBefore h txt) = (s, .error .dirtyHandle) ∧
+      step s (.objInsAfter h txt) = (s, .error .dirtyHandle) ∧
+      step s (.replaceText h before after) = (s, .error .dirtyHandle) ∧
+      step s (.reSub h txt) = (s, .error .dirtyHandle)) ∧
+    (s.dirty = true ∨ s.texts.length ≤ h →
+      step s (.delete h) = (s, .error .dirtyHandle) ∧
+      step s (.appendToFamily h txt ind ai) = (s, .error .dirtyHandle)) := by
+  constructor
+  · intro hp
+    simp only [Edit.step, hp, and_self]
+  · intro hd
+    rw [texts_length] at hd
+    have hg : (s.dirty || decide (h ≥ s.items.length)) = true := by
+      rcases hd with hd | hd <;> simp [hd]
+    simp only [Edit.step, hg, if_true, and_self]
+
+/-- **Frame**: no operation changes the options; with auto-commit off only `commit`
+replaces the committed tree; `probe` changes nothing. -/
+theorem others_unchanged (s : S) (op : Op) :
+    (step s op).1.cfg = s.cfg ∧ (step s op).1.auto = s.auto ∧ (step s op).1.width = s.width ∧
+    (s.auto = false → op ≠ .commit → (step s op).1.tree = s.tree) ∧
+    (step s .probe).1 = s :=
+  ⟨(step_frame s op).1, (step_frame s op).2.1, (step_frame s op).2.2,
+   fun ha hop => step_tree_unchanged s op ha hop, rfl⟩
+
+/-- The hypotheses `Forest s.tree` and `s.tree.size = s.texts.length` used above hold in
+every state reached from a parse that has no uncommitted change (C07's invariant). -/
+theorem reachable_tree_ok (cfg : Cfg) (auto : Bool) (width : Nat) (ls : List Str) (ops : List Op) :
+    let s := run (init cfg auto width ls) ops
+    s.dirty = false → Forest s.tree ∧ s.tree.size = s.texts.length := by
+  intro s hd
+  have h := run_fresh _ ops (init_fresh cfg auto width ls) hd
+  refine ⟨?_, by rw [T.size, ← h.2.1]⟩
+  rw [h.1]
+  exact bootstrap_forest _ _
+
+/-- The second case of `NoFilter`, spelled out: with auto-commit on and
+`ignore_blank_lines` off, the commit after the edit keeps the texts. -/
+theorem auto_commit_keeps_texts (s : S) (h : s.cfg.ignoreBlank = false) :
+    (commit s).texts = s.texts ∧ NoFilter s := ⟨commit_texts_noignore s h, .inr h⟩
+
+/-- **The remaining case: auto-commit on, any `ignore_blank_lines`.**  From a committed
+state satisfying C07's invariant (every state reached with auto-commit on), an operation
+answers as it does with auto-commit off, and leaves the texts that one bootstrap makes of
+the texts the same operation leaves with auto-commit off (to which the theorems above
+apply with `NoFilter` by its first case): a sublist of them in which every non-blank line
+survives — only blank lines can disappear, and none does without `ignore_blank_lines`. -/
+theorem auto_commit_step_texts (s : S) (op : Op) (ha : s.auto = true) (hd : s.dirty = false)
+    (hinv : FreshInv s) :
+    let manual := (step { s with auto := false } op).1.texts
+    NoFilter { s with auto := false } ∧
+    (step s op).2 = (step { s with auto := false } op).2 ∧
+    (step s op).1.texts = (bootstrap s.cfg manual).texts ∧
+    (step s op).1.texts.Sublist manual ∧
+    (step s op).1.texts.filter (fun x => !isBlank x) = manual.filter (fun x => !isBlank x) ∧
+    (s.cfg.ignoreBlank = false → (step s op).1.texts = manual) := by
+  intro manual
+  have h := auto_step_texts s op ha hd hinv
+  have hb := bootstrap_texts s.cfg manual
+  refine ⟨.inl rfl, h.2, h.1, ?_, ?_, ?_⟩
+  · rw [h.1]; exact hb.1
+  · rw [h.1]; exact hb.2
+  · intro hi; rw [h.1]; exact bootstrap_texts_noignore s.cfg manual hi
+
+/-! ## non-vacuity: a concrete 5-line config with a grandchild and a prefix pair -/
+
+def exCfg : Cfg := { ios := true, delims := ['!'], ignoreBlank := false }
+
+def exLines : List Str :=
+  ["interface Eth1".toList, " ip address 1.1.1.1".toList, "  secondary".toList, " shutdown".toList,
+   "interface Eth10".toList]
+
+/-- auto-commit off / on -/
+def exOff : S := init exCfg false 1 exLines
+def exOn : S := init exCfg true 1 exLines
+
+example : NoFilter exOff ∧ NoFilter exOn := ⟨.inl rfl, .inr rfl⟩
+example : exOn.dirty = false ∧ exOn.tree.parents = [0, 0, 1, 0, 4] ∧ exOn.texts = exLines := by decide
+example : Forest exOn.tree ∧ exOn.tree.size = exOn.texts.length :=
+  reachable_tree_ok exCfg true 1 exLines [] rfl
+
+/-- `insert(-1, "x")` lands at position 4 of 5 -/
+example : insertPos 5 (-1) = 4 ∧
+    (step exOff (.insert (-1) "x".toList)).1.texts =
+      ["interface Eth1".toList, " ip address 1.1.1.1".toList, "  secondary".toList, " shutdown".toList,
+       "x".toList, "interface Eth10".toList] := by decide
+/-- `pop(-2)` is in range and removes position 3; `pop(5)` is out of range -/
+example : (-(exOff.texts.length : Int) ≤ -2 ∧ (-2 : Int) < exOff.texts.length) ∧ popPos 5 (-2) = 3 ∧
+    (step exOff (.pop (-2))).1.texts.length = 4 ∧ (step exOff (.pop 5)).2 = .error .indexError := by decide
+/-- list-level insert_before on the rows of `^interface` : two copies -/
+example : ¬ (isBlank "!".toList = true ∧ exOff.cfg.ignoreBlank = true) ∧
+    matchCount 5 [true, false, false, false, true] = 2 ∧
+    (step exOff (.listInsBefore false [true, false, false, false, true] "!".toList)).1.texts =
+      ["!".toList, "interface Eth1".toList, " ip address 1.1.1.1".toList, "  secondary".toList,
+       " shutdown".toList, "!".toList, "interface Eth10".toList] := by decide
+/-- the refusals are reachable: `ignore_blank_lines` with a blank payload, an empty regex -/
+example : (step (init { exCfg with ignoreBlank := true } true 1 exLines) (.listInsAfter false [true] " ".toList)).2
+      = .error .invalidParameters ∧
+    (step exOff (.listInsAfter true [] "x".toList)).2 = .error .valueError := by decide
+/-- object-level insert next to `Eth1` does not touch `Eth10` (hypotheses of `objInsert*_spec`) -/
+example : posOf exOn.items 0 = some 0 ∧
+    (step exOn (.objInsAfter 0 " description x".toList)).1.texts =
+      ["interface Eth1".toList, " description x".toList, " ip address 1.1.1.1".toList, "  secondary".toList,
+       " shutdown".toList, "interface Eth10".toList] := by decide
+/-- deleting line 1 removes it and its child (line 2) -/
+example : allChildren exOn.tree 1 = [2] ∧ allChildren exOn.tree 0 = [1, 2, 3] ∧
+    (step exOn (.delete 1)).1.texts =
+      ["interface Eth1".toList, " shutdown".toList, "interface Eth10".toList] := by decide
+/-- replace_text / re_sub on line 4; an unchanged substitution is a no-op -/
+example : (step exOn (.replaceText 4 "Eth1".toList "Po".toList)).1.texts[4]? = some "interface Po0".toList ∧
+    (step exOn (.reSub 4 "interface Po1".toList)).1.texts[4]? = some "interface Po1".toList ∧
+    (step exOn (.reSub 4 "interface Eth10".toList)).2 = .ok () := by decide
+/-- child-level append to line 0 (children 1 and 3, grandchild 2): after the family end 3 -/
+example : children exOn.tree 0 = [1, 3] ∧ familyEndpoint exOn.tree 0 = 3 ∧
+    cfi 1 (indentOf exOn.tree 0) (familyText (indentOf exOn.tree 0) 1 " mtu 9000".toList (-1) false) = some 1 ∧
+    (step exOn (.appendToFamily 0 " mtu 9000".toList (-1) false)).2 = .ok () ∧
+    (step exOn (.appendToFamily 0 " mtu 9000".toList (-1) false)).1.texts =
+      ["interface Eth1".toList, " ip address 1.1.1.1".toList, "  secondary".toList, " shutdown".toList,
+       " mtu 9000".toList, "interface Eth10".toList] := by decide
+/-- **F10b**: a same-indent append to line 0 lands at `0 + |children| = 2`, between
+` ip address` and its child `  secondary`, which is thereby re-parented by the commit -/
+example : cfi 1 (indentOf exOn.tree 0) (familyText (indentOf exOn.tree 0) 1 "interface Eth2".toList (-1) false) = some 0 ∧
+    (step exOn (.appendToFamily 0 "interface Eth2".toList (-1) false)).2 = .ok () ∧
+    (step exOn (.appendToFamily 0 "interface Eth2".toList (-1) false)).1.texts =
+      ["interface Eth1".toList, " ip address 1.1.1.1".toList, "interface Eth2".toList, "  secondary".toList,
+       " shutdown".toList, "interface Eth10".toList] ∧
+    (step exOn (.appendToFamily 0 "interface Eth2".toList (-1) false)).1.tree.parents = [0, 0, 2, 2, 2, 5] := by
+  decide
+/-- childless target (line 3): same level goes after the last sibling, auto-indent one deeper -/
+example : children exOn.tree 3 = [] ∧ siblings exOn.tree 3 = [1, 3] ∧
+    (step exOn (.appendToFamily 3 " x".toList (-1) false)).1.texts[4]? = some " x".toList ∧
+    (step exOn (.appendToFamily 3 "x".toList (-1) true)).1.texts[4]? = some "  x".toList := by decide
+/-- `auto_commit_step_texts` with `ignore_blank_lines`: appending a blank line is filtered
+away by the commit, a non-blank one survives -/
+example : let s := init { exCfg with ignoreBlank := true } true 1 exLines
+    s.auto = true ∧ s.dirty = false ∧
+    (step { s with auto := false } (.append "  ".toList)).1.texts.length = 6 ∧
+    (step s (.append "  ".toList)).1.texts = exLines ∧
+    (step s (.append "end".toList)).1.texts = exLines ++ ["end".toList] := by decide
+/-- object operations on a state with uncommitted changes (auto-commit off): after
+`insert(0, "x")` the object with handle 0 sits at position 1 and is found there; after
+it is popped, its handle no longer resolves -/
+def exDirty : S := (step exOff (.insert 0 "x".toList)).1
+example : exDirty.dirty = true ∧ posOf exDirty.items 0 = some 1 ∧ posOf exDirty.items 4 = some 5 ∧
+    (step exDirty (.objInsBefore 0 "y".toList)).1.texts.take 3 = ["x".toList, "y".toList, "interface Eth1".toList] ∧
+    (step exDirty (.replaceText 4 "Eth1".toList "Po".toList)).1.texts[5]? = some "interface Po0".toList ∧
+    posOf (step exDirty (.pop 1)).1.items 0 = none ∧
+    (step (step exDirty (.pop 1)).1 (.objInsAfter 0 "y".toList)).2 = .error .dirtyHandle := by decide
+/-- identities after uncommitted edits: the fresh line has none, the others keep theirs -/
+example : idsOf exDirty.items = [0, 1, 2, 3, 4] ∧ exDirty.items.map Item.id = [none, some 0, some 1, some 2, some 3, some 4] ∧
+    idsOf (step exDirty (.pop 1)).1.items = [1, 2, 3, 4] := by decide
+/-- `handle_position`, second part: on a committed state a handle is its own position -/
+example : posOf exOn.items 3 = some 3 ∧ posOf exOn.items 5 = none := by decide
+/-- refused: two levels deeper; `delete` through a handle on a dirty state -/
+example : (step exOn (.appendToFamily 0 "   x".toList (-1) false)).2 = .error .notImplemented ∧
+    (step (step exOff (.append "x".toList)).1 (.delete 0)).2 = .error .dirtyHandle := by decide
 
 end Ccp.C06
